@@ -28,9 +28,15 @@ type tsnInfo struct {
 	order  int // order of first emission
 }
 
+type heldPoint struct {
+	step int
+	sum  int
+}
+
 type ackFacts struct {
 	cum   uint32
 	arwnd uint32
+	haveArwnd bool
 	gaps  []wGap
 	valid bool
 }
@@ -179,10 +185,12 @@ type sideMon struct {
 	lastDataDlv  time.Duration
 	needAckSince time.Duration // earliest delivery time of accepted DATA not yet covered by an emitted SACK (-1 = none)
 
+	inboundReset   map[uint16]bool   // a reset request naming this stream was delivered to this endpoint
 	resetPerformed map[uint32]bool   // request sequence numbers this endpoint answered with "performed"
 	replayedReset  map[uint16]int64  // stream -> event seq of a delivered reset request whose number had already been performed
 	fwdNoStream map[uint16]bool // a FORWARD-TSN named this stream when the endpoint had no such stream
 	fwdUMID  map[uint16]uint32 // highest unordered MID listed by an I-FORWARD-TSN delivered here, per stream
+	heldHist []heldPoint // history of the queued-byte counter sum (value after each step in which it changed)
 	snapCwnd uint32
 	dlvInStep int
 	snapT3   uint64
@@ -202,7 +210,9 @@ type wireMon struct {
 func newWireMon(w *world, x *xfer) *wireMon {
 	m := &wireMon{w: w, x: x, props: map[string]bool{}, counters: map[string]int{}}
 	for i := range m.s {
-		m.s[i] = &sideMon{sent: map[uint32]*tsnInfo{}, dlv: map[uint32]bool{}, ample: true, needAckSince: -1}
+		// ample (completeness of SACKs may be asserted) is switched on by scenarios that size
+		// their traffic so that nothing can legitimately be refused
+		m.s[i] = &sideMon{sent: map[uint32]*tsnInfo{}, dlv: map[uint32]bool{}, ample: false, needAckSince: -1}
 	}
 	return m
 }
@@ -358,6 +368,10 @@ func (m *wireMon) onEmit(p *wirePacket) {
 			m.checkSack(X, p, c)
 		case wtSHUTDOWN:
 			m.checkCum(X, c.cumTSN, "SHUTDOWN")
+			// in the shutdown states DATA may legitimately be refused: no completeness claim any more
+			m.s[0].ample, m.s[1].ample = false, false
+		case wtSHUTDOWNACK, wtABORT:
+			m.s[0].ample, m.s[1].ample = false, false
 		case wtRECONFIG:
 			for _, rp := range c.reconfig {
 				if rp.typ == 16 && rp.result == 1 {
@@ -418,7 +432,7 @@ func (m *wireMon) newTSN(X int, p *wirePacket, c *wChunk, ti *tsnInfo) {
 	before := sm.outstanding
 	cwnd := int(sm.snapCwnd)
 	arwnd := int(m.s[1-X].initARwnd)
-	if sm.ack.valid {
+	if sm.ack.haveArwnd {
 		arwnd = int(sm.ack.arwnd)
 	}
 	n := len(c.userData)
@@ -449,7 +463,10 @@ func (m *wireMon) newTSN(X int, p *wirePacket, c *wChunk, ti *tsnInfo) {
 func (m *wireMon) withPending(X int) (int, int) {
 	sm := m.s[X]
 	out := sm.outstanding
-	arwnd := int(sm.ack.arwnd)
+	arwnd := int(m.s[1-X].initARwnd)
+	if sm.ack.haveArwnd {
+		arwnd = int(sm.ack.arwnd)
+	}
 	for _, c := range sm.pendingAck {
 		cum := c.cumTSN
 		if sm.ack.valid && wSNA32LT(cum, sm.ack.cum) {
@@ -557,6 +574,14 @@ func (m *wireMon) onDeliver(to int, p *wirePacket, data []byte) {
 			}
 		case c.typ == wtRECONFIG:
 			for _, rp := range c.reconfig {
+				if rp.typ == 13 {
+					if sm.inboundReset == nil {
+						sm.inboundReset = map[uint16]bool{}
+					}
+					for _, sid := range rp.sids {
+						sm.inboundReset[sid] = true
+					}
+				}
 				if rp.typ == 13 && sm.resetPerformed[rp.reqSN] {
 					if sm.replayedReset == nil {
 						sm.replayedReset = map[uint16]int64{}
@@ -614,6 +639,7 @@ func (m *wireMon) commit(to int) {
 		sm.ack.valid = true
 		if c.typ == wtSACK {
 			sm.ack.arwnd = c.arwnd
+			sm.ack.haveArwnd = true
 			sm.ack.gaps = c.gaps
 		}
 	}
@@ -703,14 +729,35 @@ func (m *wireMon) checkSack(E int, p *wirePacket, c *wChunk) {
 		if buf == 0 {
 			buf = 1024 * 1024
 		}
+		// The SACK is built under the association lock some steps before it is written (timer
+		// mutexes inside the gather are scheduling points), and readers may release bytes
+		// meanwhile: any counter value since the emitting task last woke up is a legitimate basis.
+		since := 0
+		if cur := w.sim.cur; cur != nil {
+			since = cur.wokeStep
+		}
 		held := accCounterSum(a)
-		want := buf - held
-		if want < 0 {
-			want = 0
+		cands := []int{held}
+		hist := sm.heldHist
+		for i := len(hist) - 1; i >= 0; i-- {
+			cands = append(cands, hist[i].sum)
+			if hist[i].step < since {
+				break
+			}
+		}
+		ok := false
+		for _, h := range cands {
+			want := buf - h
+			if want < 0 {
+				want = 0
+			}
+			if int(c.arwnd) == want {
+				ok = true
+			}
 		}
 		m.count("c11.arwnd-checked")
-		if int(c.arwnd) != want {
-			w.violate("C11", "arwnd-mismatch", "%s advertised a_rwnd=%d, but buffer %d - counted bytes %d = %d", m.name(E), c.arwnd, buf, held, want)
+		if !ok {
+			w.violate("C11", "arwnd-mismatch", "%s advertised a_rwnd=%d, but buffer %d - counted bytes %d = %d (candidates since step %d: %v)", m.name(E), c.arwnd, buf, held, buf-held, since, cands)
 		}
 		if c.arwnd == 0 {
 			w.probe("arwnd-zero-advertised")
@@ -779,6 +826,12 @@ func (m *wireMon) onStep() {
 		}
 		sm.snapCwnd = cw
 		sm.dlvInStep = 0
+		if hs := accCounterSum(a); len(sm.heldHist) == 0 || sm.heldHist[len(sm.heldHist)-1].sum != hs {
+			sm.heldHist = append(sm.heldHist, heldPoint{w.sim.nSteps, hs})
+			if len(sm.heldHist) > 4096 {
+				sm.heldHist = sm.heldHist[2048:]
+			}
+		}
 		if m.props["C11"] {
 			m.checkCounters(side)
 		}
